@@ -22,6 +22,60 @@ JUNCTIONS = ["0", "1", "255", "256", "65535", "65536", "4294967295", "4294967296
              "x" * 62, "x" * 63, "x" * 64, "é" * 31 + "a", "y" * 16383, "y" * 16384, "z" * 16382, "9" * 4301, "0" * 4400 + "7", "1" * 78, "9" * 77, "a ", " a", "7 ", " 7", "a\t", "a\u3000", "\u00a0b", "a" * 31 + " ", " " + "a" * 31, "12\u2003"]
 
 
+# junction text that is NOT a fixed point of the text transformations a library is tempted to apply (Unicode NFC / NFD / NFKC / NFKD, case
+# mapping, case folding, white-space or invisible-character stripping): the statement encodes the junction's UTF-8 text as given, so each of
+# these has the chain code of ITS OWN bytes (written with escapes so that no editor re-normalises this file)
+TEXT_AS_GIVEN = [
+    "cafe\u0301", "caf\u00e9", "A\u030a", "\u00c5", "\u212b", "\u2126", "\u03a9", "\u212a", "K", "\u2126hm", "n\u0303o", "\u00f1o", "e\u0323\u0302", "e\u0302\u0323", "\u1ec7",
+    "\u1112\u1161\u11ab", "\ud55c", "\u0958", "\u0915\u093c", "\u0344", "\u0308\u0301", "\u1e9b\u0323", "\u1e9b", "\ufb01", "fi", "\ufb03x", "\u2460", "\uff21\uff11", "A1x", "\u33a1", "\u210c",
+    "\u2075x", "\u00bd", "\uff76\uff9e", "\u30ac", "\u30ab\u3099", "\u0130", "i\u0307", "\u00df", "\u1e9e", "ss", "SS", "\u01c5", "\u03a3\u03c3\u03c2", "\u03c2", "Alice", "ALICE",
+    "\u00e9".upper(), "stra\u00dfe", "STRASSE", "a\u200bb", "ab\u200d", "\ufeffab", "a\u00adb", "a\ufe0f", "\u2764\ufe0f", "\u2764", "\U0001f468\u200d\U0001f469\u200d\U0001f467", "\U0001d7d8x",
+    "x\U0001d7d9", "\u0661\u0662x", "\u00a0a\u00a0", "\u2003a", "a\u3000", "a\tb", "\tab", "ab\r", "a\x00", "\x00", "a\x1fb", "\x7f", "a\u2028", "a\u0085",
+    "Stra\u00dfe-" + "n\u0303" * 20, "\u00f1" * 15, "n\u0303" * 10, "n\u0303" * 11, "\u212b" * 10, "\u212b" * 11, "\u00c5" * 15, "\u00c5" * 16, "\ufb01" * 10, "\ufb01" * 11, "\u1112\u1161\u11ab" * 4,
+    "\ud55c" * 10, "\ud55c" * 11, "e\u0301" * 5000, "\u00e9" * 8192,
+]
+_POOL = (["a", "b", "Z", "e", "n", "A", "K", "i", "s", "S", "0", "7", " ", "-", "_", ".", "'", "h"] +
+         ["\u0301", "\u0300", "\u030a", "\u0323", "\u0302", "\u0303", "\u0308", "\u0327", "\u0307", "\u093c", "\u3099", "\u0344"] +
+         ["\u00e9", "\u00c5", "\u00f1", "\u00e7", "\u00fc", "\u1ec7", "\u212b", "\u2126", "\u212a", "\u1e9b", "\ufb01", "\u2460", "\uff21", "\uff11", "\u00b2", "\u00bd", "\uff76", "\uff9e",
+          "\u30ab", "\u1112", "\u1161", "\u11ab", "\ud55c", "\u0130", "\u00df", "\u1e9e", "\u01c5", "\u03a3", "\u03c2", "\u200b", "\u200d", "\ufeff", "\u00ad", "\ufe0f", "\u00a0", "\u3000",
+          "\u2003", "\t", "\x00", "\U0001f600", "\U0001d7d8", "\u0661", "\u4e00"])
+
+
+def rand_text(rng):
+    """a random junction text over a pool rich in combining marks, composed / singleton / compatibility / cased / invisible characters"""
+    n = rng.choice([1, 2, 3, 3, 4, 6, 9, 12, 16, 31, 40])
+    return "".join(rng.choice(_POOL) for _ in range(n))
+
+
+def text_forms(t):
+    """the spellings of `t` under the usual text transformations: distinct texts, each a junction of its own"""
+    import unicodedata
+    out = [t]
+    for f in ("NFC", "NFD", "NFKC", "NFKD"):
+        out.append(unicodedata.normalize(f, t))
+    out += [t.lower(), t.upper(), t.casefold(), t.title(), t.swapcase(), t.strip(), t + " ", " " + t, t.replace("\u200b", "").replace("\ufeff", "").replace("\u00ad", "")]
+    return [x for x in dict.fromkeys(out) if x and "/" not in x]
+
+
+def _compact(n):
+    """SCALE compact integer (the length prefix), from its definition"""
+    if n < 1 << 6:
+        return (n << 2).to_bytes(1, "little")
+    if n < 1 << 14:
+        return ((n << 2) | 1).to_bytes(2, "little")
+    if n < 1 << 30:
+        return ((n << 2) | 2).to_bytes(4, "little")
+    raise ValueError("longer than this harness generates")
+
+
+def ref_text_chain_code(text):
+    """the statement's rule for a non-decimal junction, with hashlib only: compact length ++ UTF-8 text, padded to 32 or Blake2b-256-hashed"""
+    import hashlib
+    raw = text.encode("utf-8")
+    enc = _compact(len(raw)) + raw
+    return hashlib.blake2b(enc, digest_size=32).digest() if len(enc) > 32 else enc.ljust(32, b"\x00")
+
+
 def rand_path(rng):
     n = rng.choice([0, 1, 1, 2, 3, 5])
     return "".join(rng.choice(["/", "//"]) + rng.choice(JUNCTIONS) for _ in range(n))
@@ -86,6 +140,21 @@ def gen(rng, tier):
     for j in JUNCTIONS:
         for pre in ("/", "//"):
             yield Case("subcc", [tx(pre + j)], "chaincode")
+    # junction text as given (not normalised, case-mapped or stripped): every listed text and random ones, with all their transformed
+    # spellings, through the model's chain-code rule; and through parse/print
+    texts = list(TEXT_AS_GIVEN)
+    for _ in range(25 if tier == "quick" else 1500):
+        texts += text_forms(rand_text(rng))
+    for t in dict.fromkeys(texts):
+        yield Case("subcc", [tx(("/", "//")[len(t) % 2] + t)], "chaincode-text-as-given")
+        if len(t) < 200:
+            yield Case("subpath", [tx("//" + t + "/" + t)], "parse-text-as-given")
+    short = [t for t in TEXT_AS_GIVEN if len(t) < 40]
+    for i in range(12 if tier == "quick" else 400):
+        sd = bytes(rng.randrange(256) for _ in range(32))
+        t = rng.choice(short) if i % 3 else rand_text(rng)
+        yield Case("substrate", ["seed", hx(sd), COINS[i % len(COINS)], tx(("//", "/")[i % 2] + t + rng.choice(["", "/" + rng.choice(short), "//" + rng.choice(short)])), 99],
+                   "wallet-text-as-given")
     for s in ["", "/", "//", "a", "/a/", "/a//b", "///a", "/a///b", "//a/b//c", "/ /", "/a/ /b", "//", "/a//", "a/b", "/a\n", "/😀//é",
               " /a", "/a ", " //hard", "//hard/soft ", "\t/a", "/a\u3000", "\u00a0/a", "/ ", "// ", " ", "/a /b", "/7 ", "/a\r\n"]:
         yield Case("subpath", [tx(s)], "parse")
@@ -175,5 +244,54 @@ def relations(rng, tier, rpt):
         s = "".join(p + q)
         if SubstratePathParser.Parse(s).ToStr() != s:
             rep("print(parse(s)) != s", s, SubstratePathParser.Parse(s).ToStr(), s)
+    # the SCALE text rule with hashlib only, on junction text AS GIVEN: every spelling (composed, decomposed, compatibility, cased, padded
+    # with white space or invisible characters) has the chain code of its own UTF-8 bytes; parse/print keeps it; the children derived
+    # through it are the ones the sr25519 bindings give for that chain code (so two different spellings are two different accounts)
+    texts = list(TEXT_AS_GIVEN)
+    for _ in range(60 if tier == "quick" else 4000):
+        texts += text_forms(rand_text(rng))
+    texts = [t for t in dict.fromkeys(texts) if not t.isdecimal()]
+    seen_cc = {}
+    for t in texts:
+        want = ref_text_chain_code(t)
+        for pre in ("/", "//"):
+            n += 1
+            e = SubstratePathElem(pre + t)
+            got = e.ChainCode()
+            if got != want:
+                rep("chain code of a text junction is not compact-length ++ UTF-8 of the text as given (padded to 32 / Blake2b-256)", ascii(pre + t), got.hex(), want.hex())
+                break
+            if e.ToStr() != pre + t or e.IsHard() != (pre == "//"):
+                rep("a junction does not print as it was written", ascii(pre + t), ascii(e.ToStr()), ascii(pre + t))
+        if len(t) < 200:
+            ps = "/" + t + "//" + t
+            pp = SubstratePathParser.Parse(ps)
+            if pp.ToStr() != ps or [x.ChainCode() for x in pp] != [want, want]:
+                rep("parse/print or the parsed junctions' chain codes differ from the text as given", ascii(ps), ascii(pp.ToStr()), ascii(ps))
+        raw = t.encode("utf-8")
+        if len(raw) <= 30:
+            other = seen_cc.setdefault(got, t)
+            if other != t:
+                rep("two different junction texts (of at most 30 UTF-8 bytes) share one chain code", ascii([other, t]), got.hex(), "distinct")
+    pick = [t for t in texts if len(t) < 64]
+    for i in range(10 if tier == "quick" else 300):
+        c = SubstrateCoins[COINS[i % len(COINS)]]
+        seed = bytes(rng.randrange(256) for _ in range(32))
+        t = rng.choice(pick)
+        cc = ref_text_chain_code(t)
+        m = Substrate.FromSeed(seed, c)
+        pub0, sec0 = (bytes(x) for x in sr25519.pair_from_seed(seed))
+        n += 1
+        soft = m.ChildKey("/" + t).PublicKey().RawCompressed().ToBytes()
+        want_soft = bytes(sr25519.derive_pubkey((cc, pub0), b"")[1])
+        if soft != want_soft:
+            rep("soft child through a text junction is not sr25519's child for the chain code of the text as given", "%s %s" % (seed.hex(), ascii("/" + t)), soft.hex(), want_soft.hex())
+        hard = m.DerivePath("//" + t).PublicKey().RawCompressed().ToBytes()
+        want_hard = bytes(sr25519.hard_derive_keypair((cc, pub0, sec0), b"")[1])
+        if hard != want_hard:
+            rep("hard child through a text junction is not sr25519's child for the chain code of the text as given", "%s %s" % (seed.hex(), ascii("//" + t)), hard.hex(), want_hard.hex())
     rpt.extra["impl_relation_checks"] = n
+    from harness.props.accessors_common import substrate_wrappers
+    for what, inp, got, want in substrate_wrappers(rng):
+        rep(what, inp, got, want)
     return bad[:6]
